@@ -924,6 +924,24 @@ CLEANUP:
 }
 
 
+/* With a current factorization a new column is simply appended as nonbasic and
+ * the pricing data are kept for the next (dual) solve.  Row norms stay valid,
+ * but the devex reference frames and the primal norms are indexed by column /
+ * nonbasic position and have the old length: drop them, they are rebuilt when
+ * the next phase starts. */
+static void free_column_pricing (
+	EGLPNUM_TYPENAME_QSdata * p)
+{
+	if (p->pricing)
+	{
+		EGLPNUM_TYPENAME_EGlpNumFreeArray (p->pricing->pdinfo.norms);
+		ILL_IFFREE (p->pricing->pdinfo.refframe);
+		EGLPNUM_TYPENAME_EGlpNumFreeArray (p->pricing->psinfo.norms);
+		EGLPNUM_TYPENAME_EGlpNumFreeArray (p->pricing->ddinfo.norms);
+		ILL_IFFREE (p->pricing->ddinfo.refframe);
+	}
+}
+
 EGLPNUM_TYPENAME_QSLIB_INTERFACE int EGLPNUM_TYPENAME_QSnew_col (
 	EGLPNUM_TYPENAME_QSdata * p,
 	const EGLPNUM_TYPE obj,
@@ -936,6 +954,7 @@ EGLPNUM_TYPENAME_QSLIB_INTERFACE int EGLPNUM_TYPENAME_QSnew_col (
 	rval = check_qsdata_pointer (p);
 	CHECKRVALG (rval, CLEANUP);
 
+	free_column_pricing (p);
 	rval = EGLPNUM_TYPENAME_ILLlib_newcol (p->lp, p->basis, obj, lower, upper, name, p->factorok);
 	CHECKRVALG (rval, CLEANUP);
 
@@ -963,6 +982,7 @@ EGLPNUM_TYPENAME_QSLIB_INTERFACE int EGLPNUM_TYPENAME_QSadd_cols (
 	rval = check_qsdata_pointer (p);
 	CHECKRVALG (rval, CLEANUP);
 
+	free_column_pricing (p);
 	rval = EGLPNUM_TYPENAME_ILLlib_addcols (p->lp, p->basis, num, cmatcnt, cmatbeg,
 												 cmatind, cmatval, obj, lower, upper, names,
 												 p->factorok);
@@ -992,6 +1012,7 @@ EGLPNUM_TYPENAME_QSLIB_INTERFACE int EGLPNUM_TYPENAME_QSadd_col (
 	rval = check_qsdata_pointer (p);
 	CHECKRVALG (rval, CLEANUP);
 
+	free_column_pricing (p);
 	rval = EGLPNUM_TYPENAME_ILLlib_addcol (p->lp, p->basis, cnt, cmatind, cmatval,
 												obj, lower, upper, name, p->factorok);
 	CHECKRVALG (rval, CLEANUP);
